@@ -523,6 +523,7 @@ func (a *account) SignGeneric(_ context.Context, data []byte, domain []byte) (e2
 	}
 	dt, de := decodeDomain(domain)
 	a.rec.add("signrandao", a.id, epoch, dt, de)
+	nap(a.in.SignLat)
 	if a.in.SigRandao == nil {
 		return nil, errors.New("scripted signing failure")
 	}
@@ -610,6 +611,7 @@ func (a *plainAccount) Sign(_ context.Context, data []byte) (e2types.Signature, 
 			for _, t := range types {
 				if signingRoot(obj, domainOf(t, e2)) == root {
 					a.w.rec.add("signrandao", a.id, e1, uint64(t[0]), e2)
+					nap(in.SignLat)
 					if in.SigRandao == nil {
 						return nil, errors.New("scripted signing failure")
 					}
@@ -702,12 +704,121 @@ func (w *world) newAccount(id uint64) e2wtypes.Account {
 // ---------------------------------------------------------------------------------------------
 // Providers.
 
+// world is the environment of ONE duty: its answers, and the record of what was asked on its behalf.
 type world struct {
-	in  *Input
+	in  *Input // the duty's environment answers
 	rec *recorder
 	tab *bodyTable
 	// the proposal last handed to vouch (the plain account searches its roots)
 	lastProposal *api.VersionedProposal
+	// the relays of the duty
+	relays    []builderclient.BuilderBidProvider
+	proposing bool
+}
+
+func newWorld(d *Input, tab *bodyTable) *world {
+	w := &world{in: d, rec: &recorder{start: time.Now()}, tab: tab}
+	w.relays = make([]builderclient.BuilderBidProvider, len(d.Relays))
+	for i, r := range d.Relays {
+		if r.Can {
+			w.relays[i] = &relayCan{relayBase: relayBase{w: w, i: i}}
+		} else {
+			w.relays[i] = &relayBase{w: w, i: i}
+		}
+	}
+	w.rec.calls = make([][]Call, len(d.Relays))
+	return w
+}
+
+// begin starts a fresh record: one Prepare or Propose call for this duty follows.
+func (w *world) begin(proposing bool) {
+	w.rec.mu.Lock()
+	w.lastProposal = nil
+	w.proposing = proposing
+	w.rec.start = time.Now()
+	w.rec.events = nil
+	w.rec.calls = make([][]Call, len(w.in.Relays))
+	w.rec.submit = nil
+	w.rec.mu.Unlock()
+}
+
+// router is what the ONE proposer service and the ONE signer of a history are constructed with.  A
+// request is answered by the world of the duty on whose behalf it is made: the harness hands every
+// Prepare / Propose call a context that names its duty, and vouch passes the context of a call on
+// to everything it asks (a request with a context that names no duty goes to the duty whose call
+// started last).  So calls for different duties may overlap in time.
+type ctxKey struct{}
+
+type router struct {
+	head *Input
+	mu   sync.Mutex
+	cur  *world
+}
+
+func (r *router) with(ctx context.Context, w *world) context.Context {
+	r.mu.Lock()
+	r.cur = w
+	r.mu.Unlock()
+	return context.WithValue(ctx, ctxKey{}, w)
+}
+
+func (r *router) of(ctx context.Context) *world {
+	if w, ok := ctx.Value(ctxKey{}).(*world); ok {
+		return w
+	}
+	r.mu.Lock()
+	defer r.mu.Unlock()
+	return r.cur
+}
+
+func (r *router) ValidatingAccountsForEpoch(ctx context.Context, e phase0.Epoch) (map[phase0.ValidatorIndex]e2wtypes.Account, error) {
+	return r.of(ctx).ValidatingAccountsForEpoch(ctx, e)
+}
+func (r *router) SyncCommitteeAccountsForEpoch(ctx context.Context, e phase0.Epoch) (map[phase0.ValidatorIndex]e2wtypes.Account, error) {
+	return r.of(ctx).SyncCommitteeAccountsForEpoch(ctx, e)
+}
+func (r *router) SyncCommitteeAccountsForEpochByIndex(ctx context.Context, e phase0.Epoch, idx []phase0.ValidatorIndex) (map[phase0.ValidatorIndex]e2wtypes.Account, error) {
+	return r.of(ctx).SyncCommitteeAccountsForEpochByIndex(ctx, e, idx)
+}
+func (r *router) ValidatingAccountsForEpochByIndex(ctx context.Context, e phase0.Epoch, idx []phase0.ValidatorIndex) (map[phase0.ValidatorIndex]e2wtypes.Account, error) {
+	return r.of(ctx).ValidatingAccountsForEpochByIndex(ctx, e, idx)
+}
+func (r *router) Spec(context.Context, *api.SpecOpts) (*api.Response[map[string]any], error) {
+	return (&world{in: r.head}).Spec(nil, nil)
+}
+func (r *router) Domain(ctx context.Context, dt phase0.DomainType, e phase0.Epoch) (phase0.Domain, error) {
+	return r.of(ctx).Domain(ctx, dt, e)
+}
+func (r *router) GenesisDomain(ctx context.Context, dt phase0.DomainType) (phase0.Domain, error) {
+	return r.of(ctx).GenesisDomain(ctx, dt)
+}
+func (r *router) ExecutionChainHead(ctx context.Context) (phase0.Hash32, uint64) {
+	return r.of(ctx).ExecutionChainHead(ctx)
+}
+func (r *router) Proposal(ctx context.Context, opts *api.ProposalOpts) (*api.Response[*api.VersionedProposal], error) {
+	return r.of(ctx).Proposal(ctx, opts)
+}
+func (r *router) SubmitProposal(ctx context.Context, sp *api.VersionedSignedProposal) error {
+	return r.of(ctx).SubmitProposal(ctx, sp)
+}
+
+type rGraffiti struct{ r *router }
+
+func (g rGraffiti) Graffiti(ctx context.Context, slot phase0.Slot, idx phase0.ValidatorIndex) ([]byte, error) {
+	return graffiti{g.r.of(ctx)}.Graffiti(ctx, slot, idx)
+}
+
+type rAuctioneer struct{ r *router }
+
+func (a rAuctioneer) AuctionBlock(ctx context.Context, slot phase0.Slot, parentHash phase0.Hash32, pubkey phase0.BLSPubKey) (*blockauctioneer.Results, error) {
+	return (&auctioneer{w: a.r.of(ctx)}).AuctionBlock(ctx, slot, parentHash, pubkey)
+}
+
+// a mock that takes its time (fake time inside the bubble), so that calls for different duties overlap
+func nap(ms uint64) {
+	if ms > 0 {
+		time.Sleep(time.Duration(ms) * time.Millisecond)
+	}
 }
 
 // accounts provider
@@ -734,6 +845,7 @@ func (w *world) ValidatingAccountsForEpochByIndex(_ context.Context, epoch phase
 	w.rec.mu.Lock()
 	w.rec.events = append(w.rec.events, ev)
 	w.rec.mu.Unlock()
+	nap(w.in.AccLat)
 	if w.in.Accounts == nil {
 		return nil, errors.New("scripted accounts failure")
 	}
@@ -803,7 +915,7 @@ func (w *world) ExecutionChainHead(context.Context) (phase0.Hash32, uint64) {
 
 // relays
 type relayBase struct {
-	w *world
+	w *world // the duty this relay object belongs to
 	i int
 }
 
@@ -834,7 +946,12 @@ func (r *relayCan) UnblindProposal(ctx context.Context, opts *builderapi.Unblind
 	r.n++
 	r.mu.Unlock()
 	r.w.rec.mu.Lock()
-	r.w.rec.calls[r.i] = append(r.w.rec.calls[r.i], Call{Start: start, Req: req})
+	if !r.w.proposing || r.i >= len(r.w.rec.calls) {
+		// a relay of this duty asked while the duty is not being proposed (on behalf of another duty)
+		r.w.rec.events = append(r.w.rec.events, Event{Kind: "strayunblind", Args: []uint64{uint64(r.i)}})
+	} else {
+		r.w.rec.calls[r.i] = append(r.w.rec.calls[r.i], Call{Start: start, Req: req})
+	}
 	r.w.rec.mu.Unlock()
 	out := UOut{Kind: "err"}
 	if k < len(r.w.in.Relays[r.i].Script) {
@@ -872,8 +989,7 @@ var (
 
 // auctioneer
 type auctioneer struct {
-	w      *world
-	relays []builderclient.BuilderBidProvider
+	w *world
 }
 
 func (a *auctioneer) AuctionBlock(_ context.Context, slot phase0.Slot, parentHash phase0.Hash32, pubkey phase0.BLSPubKey) (*blockauctioneer.Results, error) {
@@ -885,10 +1001,10 @@ func (a *auctioneer) AuctionBlock(_ context.Context, slot phase0.Slot, parentHas
 	res.AllProviders = []builderclient.BuilderBidProvider{}
 	res.Providers = []builderclient.BuilderBidProvider{}
 	for _, i := range a.w.in.All {
-		res.AllProviders = append(res.AllProviders, a.relays[i])
+		res.AllProviders = append(res.AllProviders, a.w.relays[i])
 	}
 	for _, i := range a.w.in.Winners {
-		res.Providers = append(res.Providers, a.relays[i])
+		res.Providers = append(res.Providers, a.w.relays[i])
 	}
 	return res, nil
 }
